@@ -105,3 +105,106 @@ pub fn report_citations(report: &crate::RotoReport) -> Vec<Citation> {
     }
     out
 }
+
+/// A scalar value passed to or returned by the IR evaluator.
+#[derive(Clone, Copy, Debug, PartialEq)]
+pub enum EvalValue {
+    Bool(bool),
+    U8(u8),
+    U16(u16),
+    U32(u32),
+    U64(u64),
+    I8(i8),
+    I16(i16),
+    I32(i32),
+    I64(i64),
+    F32(f32),
+    F64(f64),
+    Char(char),
+    Asn(u32),
+    /// A pointer into the evaluator's memory (opaque)
+    Pointer,
+}
+
+/// A script lowered to the low-level IR: the stage that both the IR
+/// evaluator and the code generator start from.
+pub struct Lowered<'r, Ctx: crate::runtime::OptCtx>(
+    crate::pipeline::LoweredToLir<'r, Ctx>,
+);
+
+/// Parse, type check and lower a script to the low-level IR.
+pub fn lower<'r, Ctx: crate::runtime::OptCtx>(
+    tree: crate::FileTree,
+    runtime: &'r crate::Runtime<Ctx>,
+) -> Result<Lowered<'r, Ctx>, crate::RotoReport> {
+    let checked = tree.parse()?.typecheck(runtime)?;
+    Ok(Lowered(checked.lower_to_mir().lower_to_lir()))
+}
+
+impl<Ctx: crate::runtime::OptCtx> Lowered<'_, Ctx> {
+    /// Run `pkg.main` with the IR evaluator on scalar arguments.
+    ///
+    /// `main` must not return through a pointer. A panic of the evaluator
+    /// (its way of rejecting what it does not support) is returned as
+    /// `Err` with the panic message.
+    pub fn eval_main(
+        &self,
+        args: &[EvalValue],
+    ) -> Result<Option<EvalValue>, String> {
+        use crate::lir::{eval::Memory, value::IrValue};
+        let args: Vec<IrValue> = args
+            .iter()
+            .map(|a| match *a {
+                EvalValue::Bool(x) => IrValue::Bool(x),
+                EvalValue::U8(x) => IrValue::U8(x),
+                EvalValue::U16(x) => IrValue::U16(x),
+                EvalValue::U32(x) => IrValue::U32(x),
+                EvalValue::U64(x) => IrValue::U64(x),
+                EvalValue::I8(x) => IrValue::I8(x),
+                EvalValue::I16(x) => IrValue::I16(x),
+                EvalValue::I32(x) => IrValue::I32(x),
+                EvalValue::I64(x) => IrValue::I64(x),
+                EvalValue::F32(x) => IrValue::F32(x),
+                EvalValue::F64(x) => IrValue::F64(x),
+                EvalValue::Char(x) => IrValue::Char(x),
+                EvalValue::Asn(x) => IrValue::Asn(inetnum::asn::Asn::from_u32(x)),
+                EvalValue::Pointer => IrValue::Pointer(0),
+            })
+            .collect();
+        let res = std::panic::catch_unwind(std::panic::AssertUnwindSafe(|| {
+            let mut mem = Memory::new();
+            let ctx = IrValue::Pointer(mem.allocate(0));
+            self.0.eval(&mut mem, ctx, args)
+        }));
+        match res {
+            Ok(v) => Ok(v.map(|v| match v {
+                IrValue::Bool(x) => EvalValue::Bool(x),
+                IrValue::U8(x) => EvalValue::U8(x),
+                IrValue::U16(x) => EvalValue::U16(x),
+                IrValue::U32(x) => EvalValue::U32(x),
+                IrValue::U64(x) => EvalValue::U64(x),
+                IrValue::I8(x) => EvalValue::I8(x),
+                IrValue::I16(x) => EvalValue::I16(x),
+                IrValue::I32(x) => EvalValue::I32(x),
+                IrValue::I64(x) => EvalValue::I64(x),
+                IrValue::F32(x) => EvalValue::F32(x),
+                IrValue::F64(x) => EvalValue::F64(x),
+                IrValue::Char(x) => EvalValue::Char(x),
+                IrValue::Asn(x) => EvalValue::Asn(x.into_u32()),
+                IrValue::Pointer(_) => EvalValue::Pointer,
+            })),
+            Err(e) => Err(if let Some(s) = e.downcast_ref::<&str>() {
+                s.to_string()
+            } else if let Some(s) = e.downcast_ref::<String>() {
+                s.clone()
+            } else {
+                "<panic>".to_string()
+            }),
+        }
+    }
+
+    /// Generate machine code from the same lowered IR.
+    pub fn codegen(self) -> crate::Package<Ctx> {
+        self.0.codegen()
+    }
+}
